@@ -304,6 +304,21 @@ def exponent_forms(ctx):
                               f"normalised value times {want!r}: {u1} vs {n1 * want}", case)
 
 
+def homogeneity(ctx):
+    """The multi-centre potential is linear in its coefficients: 1e-20 c and 1e15 c."""
+    from grid.coulomb import coulomb_potential
+
+    for normalized in (True, False):
+        base = coulomb_potential(POINTS, CENTRES, COEFFS, ALPH, centers_p=PC, coeffs_p=PCO, alphas_p=PAL, normalized=normalized)
+        for sfac in (1e-20, 1e15, -1.0):
+            ctx.count(section="multi")
+            got = coulomb_potential(POINTS, CENTRES, sfac * COEFFS, ALPH, centers_p=PC, coeffs_p=sfac * PCO, alphas_p=PAL, normalized=normalized) / sfac
+            ctx.nontrivial(("hom", normalized, sfac), section="multi")
+            if not np.allclose(got, base, rtol=1e-12, atol=0):
+                ctx.violation("coulomb_potential:not-linear-in-the-coefficients", f"coulomb_potential with coefficients scaled by {sfac:g} is not "
+                              f"{sfac:g} times the potential (normalized={normalized})", {"route": "homogeneity"})
+
+
 def refill_histories(ctx):
     from grid.coulomb import coulomb_gaussian_p, coulomb_gaussian_s, coulomb_potential
 
@@ -385,6 +400,7 @@ def run(ctx):
     ctx.guarded("loader", loader, ctx)
     ctx.guarded("refill", refill_histories, ctx)
     ctx.guarded("exponent-forms", exponent_forms, ctx)
+    ctx.guarded("homogeneity", homogeneity, ctx)
     ctx.cov["alphas"] = [ALPHAS[0], ALPHAS[-1], len(ALPHAS)]
     ctx.cov["radii"] = [repr(r) for r in RS]
     ctx.exhaustive = True
@@ -397,6 +413,8 @@ def replay(ctx, case):
         multi_centre(ctx)
     elif case["route"] == "refill":
         refill_histories(ctx)
+    elif case["route"] == "homogeneity":
+        homogeneity(ctx)
     elif case["route"] == "exponent-forms":
         exponent_forms(ctx)
     else:
